@@ -207,6 +207,52 @@ func c06SubText(base string, lo, hi int) string {
 // path is evaluated even when the access itself misbehaves
 var c06IssetOnly = false
 
+// c06AfterEarlier: what a path or isset yields depends on THIS execution's data and variables only - not on an earlier
+// execution that had data and variables and ended normally, with an error, or with a panic Execute passes on
+func c06AfterEarlier() *Result {
+	parse := func(src string) *jet.Template {
+		t, err := c06Set.Parse("/h.jet", src)
+		if err != nil {
+			panic("harness: " + err.Error())
+		}
+		return t
+	}
+	exec := func(t *jet.Template, vars jet.VarMap, data interface{}) (string, error) {
+		var b bytes.Buffer
+		err := safeExecute(t, &b, vars, data)
+		return b.String(), err
+	}
+	mk := func() jet.VarMap {
+		return jet.VarMap{}.Set("root", c06RootVals["outer"]).Set("title", "T").Set("zero", 0)
+	}
+	probeIsset := parse(`{{ isset(title) }}|{{ isset(zero) }}|{{ isset(a) }}|{{ isset(b) }}|{{ isset(.Name) }}|{{ isset(.) }}`)
+	probeAccess := parse(`[{{ .Name }}]`)
+	for _, earlier := range []struct{ name, src string }{
+		{"ended normally", `{{ .Name }}{{ if a := 1; a }}{{ range b := root.Tags }}{{ b }}{{ end }}{{ end }}`},
+		{"failed inside nested scopes", `{{ .Name }}{{ if a := 1; a }}{{ range b := root.Tags }}{{ nosuchfunction() }}{{ end }}{{ end }}`},
+		{"panicked (integer division by zero) inside nested scopes", `{{ .Name }}{{ if a := 1; a }}{{ range b := root.Tags }}{{ root.Age % zero }}{{ end }}{{ end }}`},
+	} {
+		te := parse(earlier.src)
+		// the Runtime is pooled per P: a few rounds, so that a migration of this goroutine cannot hide anything
+		for round := 0; round < 8; round++ {
+			exec(te, mk(), c06RootVals["outer"])
+			if c06IssetOnly {
+				out, err := exec(probeIsset, nil, nil)
+				if want := "false|false|false|false|false|false"; err != nil || out != want {
+					return &Result{Sig: map[string]interface{}{"kind": "isset-after-earlier-execution", "earlier": earlier.name, "root": "", "expect": "", "laststep": "", "lastname": ""}, Key: "history",
+						Observed: out, Expected: want,
+						Detail: fmt.Sprintf("after an execution that %s, an execution without variables and data rendered %q (err %v) for isset of its names and of '.', want %q", earlier.name, out, err, want)}
+				}
+			} else if out, err := exec(probeAccess, nil, nil); err == nil {
+				return &Result{Sig: map[string]interface{}{"kind": "access-after-earlier-execution", "earlier": earlier.name, "root": "", "expect": "", "laststep": "", "lastname": ""}, Key: "history",
+					Observed: out, Expected: "an error",
+					Detail: fmt.Sprintf("after an execution that %s, {{ .Name }} in an execution WITHOUT data rendered %q; there is no '.' to take a field of", earlier.name, out)}
+			}
+		}
+	}
+	return nil
+}
+
 func c06Replay(i int, raw json.RawMessage) Result {
 	var v c06Vec
 	if err := json.Unmarshal(raw, &v); err != nil {
@@ -214,6 +260,11 @@ func c06Replay(i int, raw json.RawMessage) Result {
 	}
 	if c06Set == nil {
 		c06Init()
+	}
+	if i%499 == 0 {
+		if r := c06AfterEarlier(); r != nil {
+			return *r
+		}
 	}
 	if v.Catalogue != nil {
 		if why := c06SelfCheck(v.Catalogue); why != "" {
@@ -359,6 +410,18 @@ func c06Replay(i int, raw json.RawMessage) Result {
 			sig["kind"] = "isset-lookup"
 			return Result{Sig: sig, Key: key, Observed: map[string]interface{}{"out": o4, "err": fmt.Sprint(e4)}, Expected: v.KeyPresent,
 				Detail: fmt.Sprintf("{{ if v, ok := %s; ok }} on root %s rendered %q (err %v), key present: %s", expr, v.Root, o4, e4, v.KeyPresent)}
+		}
+	}
+	// what the lookup binds: v is declared in the if's scope whether the key is there or not (it shadows an outer v and
+	// is set exactly when the path is); the outer v is untouched
+	if v.KeyPresent == "yes" || v.KeyPresent == "no" {
+		src := `{{ v := "outer" }}{{ if v, ok := ` + expr + `; ok }}yes:{{ isset(v) }}{{ else }}no:{{ isset(v) }}{{ end }}|{{ v }}`
+		want := v.KeyPresent + ":" + fmt.Sprint(v.KeyPresent == "yes" && v.IsSet) + "|outer"
+		o7, e7 := c06Render(src, v.Root)
+		if e7 != nil || o7 != want {
+			sig["kind"] = "isset-lookup-binding"
+			return Result{Sig: sig, Key: key, Observed: map[string]interface{}{"out": o7, "err": fmt.Sprint(e7)}, Expected: want,
+				Detail: fmt.Sprintf("%s on root %s rendered %q (err %v), want %q", src, v.Root, o7, e7, want)}
 		}
 	}
 	// the same lookup assigning to declared variables ('=' form)
